@@ -4,6 +4,7 @@ import (
 	"strconv"
 	"strings"
 	"unicode"
+	"unicode/utf8"
 )
 
 func isIdent(s string) bool {
@@ -80,10 +81,10 @@ func RenderSel(p []string) string {
 }
 
 func RenderLit(s string) string {
-	if !strings.ContainsAny(s, "`\r") {
+	if !strings.ContainsAny(s, "`\r") && utf8.ValidString(s) {
 		return "`" + s + "`"
 	}
-	return strconv.Quote(s)
+	return strconv.Quote(s) // bytes that are not UTF-8 can only be spelled by an escape
 }
 
 func Render(e any) string {
